@@ -221,12 +221,49 @@ def prove(pid, tier, extra_targets=()):
             axioms[m.group(1)] = {a.strip() for a in m.group(2).replace('\n', ' ').split(',') if a.strip()}
         for m in re.finditer(r"'([^']+)' does not depend on any axioms", txt):
             axioms[m.group(1)] = set()
+    partial_axioms = None
+    if not ok and errs and not other_errs:
+        # Only the property file itself has errors. Lean elaborates past a failed declaration
+        # (it becomes `sorryAx`), so re-elaborate the file with the axiom audit appended: every
+        # theorem that still checks and does not rest on a failed one is attributed precisely.
+        try:
+            src = open(os.path.join(LEAN, props_rel)).read()
+            apath = os.path.join(LEAN, '.lake', 'audit_partial_{}_{}.lean'.format(pid, os.getpid()))
+            with open(apath, 'w') as f:
+                f.write(src + '\n' + ''.join('#print axioms {}\n'.format(n) for n, _, _ in thms))
+            try:
+                rc, so, se = lean_run_file(apath)
+            finally:
+                try:
+                    os.remove(apath)
+                except OSError:
+                    pass
+            txt = so + se
+            partial_axioms = {}
+            for m in re.finditer(r"'([^']+)' depends on axioms: \[([^\]]*)\]", txt, flags=re.S):
+                partial_axioms[m.group(1)] = {a.strip() for a in
+                                              m.group(2).replace('\n', ' ').split(',') if a.strip()}
+            for m in re.finditer(r"'([^']+)' does not depend on any axioms", txt):
+                partial_axioms[m.group(1)] = set()
+        except Exception:  # noqa: fall back to the conservative attribution
+            partial_axioms = None
     for name, a, b in thms:
         if not ok:
             mine = [e for f, es in errs.items() if f.endswith(props_rel)
                     for e in es if a <= e[0] <= b]
             if mine:
                 obs.append(Obligation(name, 'theorem', False, 'lean error: ' + mine[0][1]))
+            elif partial_axioms is not None and name in partial_axioms:
+                ax = partial_axioms[name]
+                if ax <= ALLOWED_AXIOMS:
+                    obs.append(Obligation(name, 'theorem', True, 'axioms: ' + ','.join(sorted(ax)) +
+                                          ' (checked although another theorem of the file fails)'))
+                elif 'sorryAx' in ax:
+                    obs.append(Obligation(name, 'theorem', False,
+                                          'rests on a theorem of this file that no longer checks'))
+                else:
+                    obs.append(Obligation(name, 'theorem', False,
+                                          'uses axioms ' + ','.join(sorted(ax - ALLOWED_AXIOMS))))
             elif other_errs or not errs:
                 obs.append(Obligation(name, 'theorem', False,
                                       'dependency failed to build: ' +
